@@ -1,5 +1,6 @@
 import ChfVerif.Lemmas.BerInt
 import ChfVerif.Lemmas.BerRoundTrip
+import ChfVerif.Lemmas.BerStructRT
 import ChfVerif.Lemmas.BerSafe
 import ChfVerif.Lemmas.BerMarshalSafe
 import ChfVerif.Gen.Schema
@@ -11,15 +12,20 @@ import ChfVerif.Gen.Schema
   parameters returns that value.
 
   What is proved here, for all inputs:
-  * the full law for every primitive type under every tagging (untagged, IMPLICIT, EXPLICIT; low and high tag
-    numbers; short and long lengths): C05_integer, C05_enumerated, C05_boolean, C05_octet_string, C05_string,
-    C05_bit_string, C05_null, and C05_pointer (pointers are transparent) — through the real header parser
-    (C05_header), the tag check and the EXPLICIT unwrapping of the decoder model;
-  * the content-level lemmas they rest on (C05_partial_*), and the error outcome of unsupported constructs.
-  What is not proved is the structural induction through SEQUENCE / SET / SEQUENCE OF / CHOICE member matching
-  (`decodeSeq`, `decodeSet`, `decodeAlt` against `marshalFields`, `marshalAlt`): for that part `RoundTrip` is
-  decided per run by the correspondence (model = implementation on every generated round trip, so a
-  counterexample of the model is a counterexample of the code) and the DeepEqual oracle.
+  * `C05`: the full law, by mutual induction over the encoder (no bound on nesting, lengths or the number of
+    members / elements): for every type in `rtTy` — SEQUENCE, SEQUENCE OF, CHOICE whose alternatives are
+    tagged with distinct numbers, Value/List wrappers, pointers, every primitive; members with a context tag or
+    a universal tag of their own, OPTIONAL members nil-able and not confusable with a later member — every
+    parameter set in `rtParams` and every canonical value (`Canon`: what the decoder produces, e.g. absent
+    OPTIONAL members are nil, the unselected alternatives of a CHOICE hold zero values), if `marshal` returns
+    octets then `unmarshal` returns the value.  `C05_schema`: 194 of the 195 regenerated schema types are in
+    `rtTy` (decide +kernel), among them the CHF's own record `CHFRecord`; the one left out is IPBinaryAddress
+    (an untagged CHOICE alternative that is itself a CHOICE).  SET types and EXPLICIT tags on non-primitive
+    members are outside `rtTy` / `rtParams` too — the schema uses neither.
+  * for primitives additionally every tagging incl. EXPLICIT (C05_integer … C05_null), the header parser on
+    its own (C05_header), Value wrappers of primitives under EXPLICIT tags (C05_wrapped_*).
+  For what the theorem leaves out, `RoundTrip` is decided per run by the correspondence (model =
+  implementation on every generated round trip) and the DeepEqual oracle.
 -/
 namespace Chf.Props.C05
 open Chf Chf.Ber
@@ -236,5 +242,37 @@ theorem C05_wrapped_string (d : Nat) (p : Params) (bs : Bytes) (hn : ∀ n, p.ta
       · exact rt_str d _ bs hn hd hlen
       · exact rt_str d _ bs (untagged_ok p) hd hlen)
     hd hlen
+
+/-! ### the structural law -/
+
+open Chf.Ber in
+/-- C05: decode(encode v) = v, for arbitrarily nested SEQUENCE / SEQUENCE OF / CHOICE / wrapper / pointer types -/
+theorem C05 (t : Ty) (p : Params) (v : Val) (ht : rtTy t = true) (hp : rtParams p = true) (hv : Canon t v)
+    (b : Bytes) (hm : marshal t p v = .ok b) (hl : b.length < 4611686018427387904) :
+    unmarshal t p b = .ok v :=
+  (roundtrip_all.1 t p v p b rfl hp ht hv hm hl).1
+
+open Chf.Ber in
+/-- all regenerated schema types but one are covered -/
+theorem C05_schema : (Gen.schema.filter (fun e => !rtTy e.2)).map (·.1) = ["IPBinaryAddress"] := by decide +kernel
+
+open Chf.Ber in
+/-- in particular the record the CHF writes, with the parameters the CHF uses ("explicit,choice") -/
+theorem C05_chf_record (v : Val) (hv : Canon Gen.T_CHFRecord v) (b : Bytes)
+    (hm : marshal Gen.T_CHFRecord ⟨false, none, true, false, false, 0⟩ v = .ok b) (hl : b.length < 4611686018427387904) :
+    unmarshal Gen.T_CHFRecord ⟨false, none, true, false, false, 0⟩ b = .ok v :=
+  C05 _ _ v (by decide +kernel) (by decide) hv b hm hl
+
+open Chf.Ber in
+/-- non-vacuity: a SEQUENCE with an absent OPTIONAL member, a present one and a CHOICE member is canonical -/
+example : Canon
+    (.struct (.cons ⟨true, some 0, false, false, false, 0⟩ (.ptr (.int 64))
+             (.cons ⟨true, some 1, false, false, false, 0⟩ (.ptr .bool)
+             (.cons ⟨false, some 2, false, false, false, 0⟩
+                (.choice (.cons ⟨false, some 0, false, false, false, 0⟩ .octets
+                         (.cons ⟨false, some 1, false, false, false, 0⟩ .enum .nil))) .nil))))
+    (.struct (.cons .nil (.cons (.bool true) (.cons (.choice 2 (.cons .nil (.cons (.int 7) .nil))) .nil)))) := by
+  refine .struct (.absent rfl (.present (.ptr .bool) (.present ?_ .nil)))
+  exact .choice (v := .int 7) (by decide) (.there (.here (.enum ⟨by decide, by decide⟩))) rfl rfl
 
 end Chf.Props.C05
